@@ -136,6 +136,24 @@ def check_seal_alloc(rep, facts, a, inplace_key, rule='R14.2'):
     init, ws = v[2], v[3]
     tagsz = None
     ok_init = False
+    # alternative idiom: buf = plaintext.to_vec(); tag = seal_in_place(&mut buf); buf.extend_from_slice(&tag.0)
+    if init[0] == 'call' and init[1].endswith('::to_vec') and init[2] == (('param', 2),):
+        descs = [(w[1], w[2]) for w in ws]
+        okalt = len(ws) == 2 and all(w[3] for w in ws)
+        if okalt:
+            (q1, e1), (q2, e2) = descs
+            okalt = e1[0] == 'call' and e1[4] and e1[4][3] == inplace_key and e1[2][0] == ('param', 1) and e1[2][2] == ('param', 3) and \
+                not [x for x in (q1 or ()) if x[0] != 'f'] and e2[0] == 'call' and e2[1].endswith('::extend_from_slice') and not q2
+            if okalt:
+                src = a.deref_val(e2[2][1], ws[1][0])
+                x = src[2] if src[0] == 'field' and src[1] == '0' else src
+                okalt = x[0] == 'okval' and x[1][0] == 'call' and x[1][4] and x[1][4][3] == inplace_key
+        rep.check(okalt, 'R01.4', fn, 'ciphertext-length', pp(v)[:240],
+                  'plaintext.to_vec(), sealed in place as a whole, then extended by the returned tag (length = len + Nt, tag last)', where(a, s))
+        if okalt:
+            rep.ok(rule, fn, 'seal-in-place', 'whole copy of the plaintext sealed in place')
+            rep.ok('R06.3', fn, 'tag-appended', 'extend_from_slice(&tag.0) after the in-place seal')
+        return
     if init[0] == 'call' and init[1].endswith('vec::from_elem') and init[2][0] == ('const', 'u8', 0):
         ln = init[2][1]
         if ln[0] == 'bin' and ln[1] == 'Add' and ln[2] == plen and ln[3][0] == 'call' and ln[3][1] == 'Serializable::size' \
